@@ -27,10 +27,10 @@ func init() {
 				Flavours: []string{"plain", "race", "cover"},
 				Blocks:   16,
 				Procs:    16,
-				Rule: "case = a string s or a list ss. Exhaustive: every single byte 1..255 alone and embedded in four positions; every string of length <= 3 (<= 4 thorough) over a 24-byte alphabet of every shell metacharacter, both quotes, backslash, blank, tab, newline, glob/comment/tilde/assignment characters, two plain letters and a two-byte non-ASCII rune; strings of 4090..70000 bytes around common buffer sizes (quoted spans longer than 4096 and 65536 bytes); random lists of 0..4 such strings (incl. the empty string and the empty list) and random byte strings up to 40 bytes incl. invalid UTF-8. " +
+				Rule: "case = a string s or a list ss. Exhaustive: every single byte 1..255 alone and embedded in four positions; every string of length <= 3 (<= 4 thorough) over a 24-byte alphabet of every shell metacharacter, both quotes, backslash, blank, tab, newline, glob/comment/tilde/assignment characters, two plain letters and a two-byte non-ASCII rune; every rune U+0080..U+FFFF (and a stride of the supplementary planes) alone, at the start of a word and of a list, plus byte-order marks, '#!', CR LF, escape sequences and option-like words in first position; strings of 4090..70000 bytes around common buffer sizes (quoted spans longer than 4096 and 65536 bytes); random lists of 0..4 such strings (incl. the empty string and the empty list) and random byte strings up to 40 bytes incl. invalid UTF-8. " +
 					"Per string: Split(Quote(s)) == [s], the independent scanner (special byte only inside single quotes or after a backslash; unquoting gives s), and dash + 'bash +B' evaluating 'emit Quote(s)' in a directory with bait files (a b ab [a] x=y ~ #a ...) and HOME set; per list: Split(Join(ss)) == ss && complete, and the shells on Join(ss). Quote and Join calls are interleaved and every result is kept and re-verified at the end (pool aliasing); under -race 8 goroutines do the same concurrently. " +
 					"distinct = the string/list itself (enumerated; random ones by hash); non-trivial = it contains a byte that needs protection, or is empty",
-				Required:     []string{"strings_checked", "lists_checked", "scanner_checks", "shell_words_dash", "shell_words_bash", "kept_results_rechecked", "concurrent_calls", "all_single_bytes", "long_strings"},
+				Required:     []string{"strings_checked", "lists_checked", "scanner_checks", "shell_words_dash", "shell_words_bash", "kept_results_rechecked", "concurrent_calls", "all_single_bytes", "long_strings", "rune_sweep_strings"},
 				Exhaustive:   true,
 				Assumptions:  []string{"dash and bash (+B, LC_ALL=C) as installed are the POSIX shells consulted", "strings containing NUL are not passed to the shells"},
 				CoverPkgs:    []string{"github.com/creachadair/mds/shell"},
@@ -196,6 +196,11 @@ func (m *c15mon) recheck(rig *shellRig) {
 	m.kept = m.kept[:0]
 }
 
+// c15magic: byte sequences that text tools treat specially at the start of
+// their input or anywhere in it (byte-order marks, interpreter line, escape
+// sequences, CR LF, option-like words).
+var c15magic = []string{"\xef\xbb\xbf", "\xef\xbb", "\xff\xfe", "\xfe\xff", "\xff\xfe\x00\x00", "#!", "#!/bin/sh", "\r\n", "\n\r", "\x1b[0m", "\x1b]0;t\a", "--", "-", "-n", "-e", "--help", "\\\n", "\\\r\n", "\x7f", "\x01", "\xc0\x80", "\xed\xa0\x80", "\xf4\x90\x80\x80", "\xe2\x80\xa8", "\xc2\x85", "\xc2\xa0"}
+
 func nontrivialC15(s string) bool { return s == "" || strings.ContainsAny(s, c15special) }
 
 func runC15(c *fw.Ctx) {
@@ -300,6 +305,48 @@ func runC15(c *fw.Ctx) {
 				c.Add("long_strings", 3)
 			}
 		}
+		m.recheck(rig)
+	}
+	// every rune of the Basic Multilingual Plane (and a stride of the other
+	// planes), alone and at the start / in the middle of a word and of a list:
+	// a rune-specific rule anywhere (byte-order mark, no-break space, line and
+	// paragraph separators, ...) changes one of these.
+	if !light && c.Begin(idx+710000+c.Block) {
+		var n int64
+		keepEvery := 257
+		for cp := 0x80 + c.Block; cp <= 0x10FFFF; cp += c.NBlocks {
+			if cp >= 0xD800 && cp <= 0xDFFF {
+				continue
+			}
+			if cp > 0xFFFF && (cp/c.NBlocks)%97 != 0 {
+				continue
+			}
+			u := string(rune(cp))
+			before := len(m.kept)
+			m.checkString(u)
+			m.checkString(u + "cmd")
+			m.checkList([]string{u + "cmd", "-flag", "a b"})
+			m.checkList([]string{"x", u, "a" + u + "b"})
+			n += 4
+			if cp%keepEvery != 0 {
+				m.kept = m.kept[:before] // the shells see a sample only
+			}
+			if c.Stopped() {
+				return
+			}
+		}
+		// multi-byte sequences with a meaning to other tools, in first position
+		for _, u := range c15magic {
+			m.checkString(u)
+			m.checkString(u + "x")
+			m.checkList([]string{u})
+			m.checkList([]string{u + "x", "y"})
+			m.checkList([]string{"y", u + "x", u})
+			n += 5
+		}
+		c.Add("rune_sweep_strings", n)
+		c.Evals(n)
+		c.SeenEnum(n)
 		m.recheck(rig)
 	}
 	// random lists and random byte strings
